@@ -43,6 +43,8 @@ type Case struct {
 	L   int    `json:"l"`
 	K   int    `json:"k"`
 	Ops []Op   `json:"ops"`
+	// MaxOut bounds the number of buffers checked out at the same time (0 = 6); further gets are skipped
+	MaxOut int `json:"maxOut,omitempty"`
 }
 
 var Types = []string{"int8", "uint8", "int16", "uint16", "int32", "uint32", "int64", "uint64", "int", "uint", "uintptr", "float32", "float64"}
@@ -58,15 +60,19 @@ type held struct {
 	short bool
 }
 
-const maxOut = 6
+const defaultMaxOut = 6
 
 func Check(c *Case) (res kit.Result) {
 	okT := false
 	for _, t := range Types {
 		okT = okT || t == c.T
 	}
-	if !okT || c.C < 1 || c.C > 8 || c.K < 0 || c.K > 64 || c.L < 0 || c.L > c.K || len(c.Ops) > 400 {
+	if !okT || c.C < 1 || c.C > 8 || c.K < 0 || c.K > 64 || c.L < 0 || c.L > c.K || len(c.Ops) > 400 || c.MaxOut < 0 || c.MaxOut > 64 {
 		return
+	}
+	maxOut := c.MaxOut
+	if maxOut == 0 {
+		maxOut = defaultMaxOut
 	}
 	C, L, K := c.C, c.L, c.K
 	al := signal.Allocator{Channels: C, Length: L, Capacity: K}
@@ -121,6 +127,14 @@ func Check(c *Case) (res kit.Result) {
 			}
 			checkouts++
 			recycled := wasPut[b.Raw()]
+			if C*K > 0 {
+				for _, o := range out {
+					if o.hdrs[0].Raw() == b.Raw() {
+						res.Failf("%s: Get returned the very buffer that checkout #%d still holds (%d outstanding)", what, o.id, len(out))
+						return
+					}
+				}
+			}
 			if hd := b.Hdr(); hd != want {
 				res.Failf("%s: Get returned %+v, a fresh Alloc(%+v) reports %+v (recycled buffer: %v)", what, hd, al, want, recycled)
 				return
@@ -165,6 +179,9 @@ func Check(c *Case) (res kit.Result) {
 			out = append(out, nh)
 			if len(out) >= 2 {
 				res.Class("severalOutstanding")
+			}
+			if len(out) >= 9 {
+				res.Class("nineOrMoreOutstanding")
 			}
 		case "put":
 			wasPut[h.buf.Raw()] = true
@@ -289,7 +306,7 @@ func sampleFor(isFloat bool, sel, v int) kit.Val {
 func FP(c *Case) uint64 {
 	h := kit.NewHasher()
 	h.Str(c.T)
-	h.Ints([]int{c.C, c.L, c.K, len(c.Ops)})
+	h.Ints([]int{c.C, c.L, c.K, len(c.Ops), c.MaxOut})
 	for _, op := range c.Ops {
 		h.Str(op.Kind)
 		h.Int(op.I)
@@ -312,6 +329,21 @@ func Gen(t *rapid.T) *Case {
 	default:
 		c.L = rapid.IntRange(0, c.K).Draw(t, "l")
 	}
+	if rapid.IntRange(0, 4).Draw(t, "burstSel") == 0 {
+		// many buffers outstanding at once: g gets, the same number of puts in a drawn order,
+		// g2 gets, then the random tail below
+		c.MaxOut = rapid.SampledFrom([]int{7, 8, 9, 10, 12, 16, 17, 24, 33, 40}).Draw(t, "maxOut")
+		g := rapid.IntRange(2, c.MaxOut).Draw(t, "burstGets")
+		for i := 0; i < g; i++ {
+			c.Ops = append(c.Ops, Op{Kind: "get", N: rapid.IntRange(0, 1).Draw(t, "quietB")})
+		}
+		for i := rapid.IntRange(0, g).Draw(t, "burstKeep"); i < g; i++ {
+			c.Ops = append(c.Ops, Op{Kind: "put", I: rapid.IntRange(0, c.MaxOut-1).Draw(t, "putI")})
+		}
+		for i, g2 := 0, rapid.IntRange(1, c.MaxOut).Draw(t, "burstGets2"); i < g2; i++ {
+			c.Ops = append(c.Ops, Op{Kind: "get", N: rapid.IntRange(0, 1).Draw(t, "quietB2")})
+		}
+	}
 	n := rapid.IntRange(1, 40).Draw(t, "nops")
 	c.Ops = append(c.Ops, Op{Kind: "get", N: rapid.IntRange(0, 1).Draw(t, "quiet0")})
 	for i := 0; i < n; i++ {
@@ -319,11 +351,11 @@ func Gen(t *rapid.T) *Case {
 		if op.Kind == "get" {
 			op.N = rapid.IntRange(0, 1).Draw(t, "quiet")
 		}
-		if op.Kind == "gc" && rapid.IntRange(0, 3).Draw(t, "gcRare") != 0 {
+		if op.Kind == "gc" && rapid.IntRange(0, 9).Draw(t, "gcRare") != 0 {
 			op.Kind = "get"
 		}
 		if op.Kind != "get" && op.Kind != "gc" {
-			op.I = rapid.IntRange(0, maxOut-1).Draw(t, "i")
+			op.I = rapid.IntRange(0, kit.Max(c.MaxOut, defaultMaxOut)-1).Draw(t, "i")
 			op.N = rapid.IntRange(0, 40).Draw(t, "n")
 			if rapid.IntRange(0, 2).Draw(t, "olderHeader") == 0 {
 				op.V = rapid.IntRange(1, 3).Draw(t, "v")
